@@ -158,7 +158,8 @@ func transactOnConn(ctx context.Context, conn *sql.DB, b beginnable, fn func(con
 			}
 		} else if err != nil {
 			if e := tx.Rollback(); e != nil {
-				err = fmt.Errorf("事务失败了：%s，回滚也失败了：%w", err, e)
+				// 事务函数的错误仍须能被调用方识别（errors.Is / errors.As），不能只留下回滚的错误
+				err = fmt.Errorf("事务失败了：%w，回滚也失败了：%w", err, e)
 			}
 		} else {
 			err = tx.Commit()
